@@ -74,13 +74,14 @@ def _normalize_parsed_items(
 
     for measure in list_items:
         # list version is the only element without obis code
-        element_name = (
-            obis_map.obis_name_map[Obis.from_string(measure.obis).to_group_cdr_str()]
-            if measure.obis
-            else obis_map.FIELD_OBIS_LIST_VER_ID
-        )
+        if measure.obis:
+            obis_group_cdr = Obis.from_string(measure.obis).to_group_cdr_str()
+            # unknown OBIS codes are reported by their C.D.E groups, like the other decoders do
+            element_name = obis_map.obis_name_map.get(obis_group_cdr, obis_group_cdr)
+        else:
+            element_name = obis_map.FIELD_OBIS_LIST_VER_ID
 
-        if element_name == obis_map.FIELD_METER_DATETIME:
+        if hasattr(measure.value, "datetime"):
             dictionary[element_name] = measure.value.datetime
         else:
             if isinstance(measure.value, int):
